@@ -236,7 +236,7 @@ def gen_cases(prop, seed, n_types, per):
     pool = Pool(); g = Gen(rnd, pool, KINDS_BY_PROP.get(prop))
     if prop in ("C01", "C02", "C03", "C08", "C14") and not KINDS_BY_PROP.get(prop): g.kinds = g.kinds + ["depreq", "aggregate"]
     if prop in ("C01", "C02", "C03", "C13"): g.kinds = g.kinds + ["cunion"]          # constraints attached to a union reach its alternatives
-    if prop == "C08": g.kinds = g.kinds + ["postinit", "postinit", "plain", "plain"]
+    if prop == "C08": g.kinds = g.kinds + ["postinit", "postinit", "plain", "plain", "plainskip", "plainskip"]
     types = []
     for _ in range(n_types):
         t = g.ty(3)
